@@ -16,7 +16,7 @@ TECHNIQUE = ("Coq proof over a per-synapse model of the event-time bookkeeping (
 LEVEL_TEXT = ("Machine-checked proof (Coq, reals) that, for every spike history, batch, receptive field, per-step delay sequence and "
               "hyperparameter choice: the monitors hold the time since the true most recent spike and at every step of every run "
               "each trainer's forward is applied to t_delta = t_post_last - t_pre_last - d(t) (NaN, hence zero parts, until both "
-              "sides have spiked) [cell_step_true_times, cell_step_ps_true_times (per-element tensor-valued kernel kwargs), monitor_true_times, no_change_before_both_spiked]; the (pos, neg) parts "
+              "sides have spiked) [cell_step_true_times, cell_step_ps_true_times (per-element tensor-valued kernel kwargs), cell_run_tv_true_times (hyperparameters re-assigned on the cell state between steps: the values in force at each step), monitor_true_times, no_change_before_both_spiked]; the (pos, neg) parts "
               "of DelayAdjustedSTDP/STDPD/MSTDP/MSTDPD (scalar and per-sample reward) net to the documented two-branch rule with "
               "the causal branch taken iff t_delta >= 0 [rule_formula, run_rule_formula, branch_iff_tdelta_nonneg]; kernel STDP "
               "with the generated exp_stdp_post/pre_kernel accumulates the same parts as the dedicated rules for sum/mean "
@@ -234,10 +234,11 @@ def gen_steps(rng, case, g, T, persample=None, sparse=False):
             st["signal"] = [sig() for _ in range(B)] if persample else sig()
             st["scale"] = rng.choice([1.0, 1.0, 0.5, 2.0, -1.0])
             # the reward and the scale in every scalar TYPE the signature `float | torch.Tensor` / `float` admits: python
-            # float / int, numpy float64 (a Python float by isinstance) / float32 / int64; 0-d tensors for the scale
-            # (a 0-d tensor REWARD takes the per-sample branch, whose documented shape is B: not generated)
+            # float / int, numpy float64 (a Python float by isinstance) / float32 / int64, 0-d tensors (float64 / float32 /
+            # int64; a 0-d tensor reward is the scalar branch)
             if not persample:
-                tags = ["float", "float", "np64", "np64", "np32"] + (["int", "npi"] if float(st["signal"]).is_integer() else [])
+                tags = (["float", "float", "np64", "np64", "np32", "t0", "t0", "t0f32"]
+                        + (["int", "npi", "t0i", "t0i"] if float(st["signal"]).is_integer() else []))
                 st["signal_type"] = rng.choice(tags)
             tags = ["float", "float", "np64", "np32", "t0"] + (["int", "npi", "t0i"] if float(st["scale"]).is_integer() else [])
             st["scale_type"] = rng.choice(tags)
@@ -259,6 +260,69 @@ def gen_case(rng, cls=None, conv_ok=True):
         assign_types(rng, per_element(rng, case["trainer"], g["nparam"]))
     case["steps"] = gen_steps(rng, case, g, rng.randint(1, 14))
     return case
+
+
+def add_reassign(rng, case, g):
+    """re-assign attributes of the per-cell state (unit.state) between steps: learning rates (mostly with a sign change),
+    time constants, kernel keyword values (dictionary entries or buffers), the half kernels themselves, the batch
+    reduction, tolerance and inplace; 1-3 events per run, the first never before step 1"""
+    t = case["trainer"]
+    cls = t["cls"]
+    T = len(case["steps"])
+    if T < 2:
+        return case
+    cur = {k: v for k, v in t.items() if k != "types"}
+    kinds = dict(t.get("types") or {})
+    keys = HP_KEYS["ker" if cls in KER else "ded"]
+    for k in sorted(rng.sample(range(1, T), min(T - 1, rng.randint(1, 3)))):
+        ra, rt = {}, {}
+        chosen = [x for x in keys if rng.random() < 0.5] or [rng.choice([x for x in keys if x.startswith("lr_")])]
+        for key in chosen:
+            if key.startswith("lr_"):
+                ref = cur[key][0] if isinstance(cur[key], list) else cur[key]
+                mag = rng.choice([0.3, 0.5, 1.0, 0.7])
+                new = (-mag if ref >= 0 else mag) if rng.random() < 0.7 else rng.choice(LRS)
+            else:
+                new = rng.choice(TCS)
+            tensor_stored = isinstance(cur[key], list) or kinds.get(key) in ("t0", "t0i", "t1")
+            if cls in KER and tensor_stored and rng.random() < 0.5:
+                src = LRS if key.startswith("lr_") else TCS
+                new = [rng.choice(src) for _ in range(g["nparam"])]
+            elif cls in KER and not tensor_stored:
+                rt[key] = rng.choice(["float", "np64"] + (["int"] if float(new).is_integer() else []))
+            elif cls not in KER and float(new).is_integer() and rng.random() < 0.3:
+                rt[key] = "int"
+            ra[key] = new
+            cur[key] = new
+        if rng.random() < 0.35:
+            ra["red"] = rng.choice(["sum", "mean"] if has_lists(cur) or cls in KER else ["sum", "mean", "amax"])
+            cur["red"] = ra["red"]
+        if cls in KER and rng.random() < 0.25:
+            side = rng.choice(["post", "pre"])
+            ra["kernel_" + side] = rng.choice(["zero", "exp"])
+        if rng.random() < 0.2:
+            ra["tolerance"] = rng.choice([0.0, 1e-6])
+        if rng.random() < 0.2:
+            ra["inplace"] = rng.random() < 0.5
+        case["steps"][k]["reassign"] = ra
+        if rt:
+            case["steps"][k]["reassign_types"] = rt
+    return case
+
+
+def gen_reassign_case(rng, cls):
+    """a cell whose per-cell state is re-configured mid-run"""
+    case = gen_conv_case(rng, cls) if rng.random() < 0.25 else gen_case(rng, cls)
+    g = geometry(case)
+    if len(case["steps"]) < 5:
+        case["steps"] = gen_steps(rng, case, g, rng.randint(5, 12))
+    t = case["trainer"]
+    for k in [k for k in t if k.startswith("lr_") and not isinstance(t[k], list)]:
+        if t[k] == 0:
+            t[k] = rng.choice([0.5, -0.5, 1.0, -0.3])
+    t.pop("types", None)
+    assign_types(rng, t)
+    return add_reassign(rng, case, g)
 
 
 def gen_conv_case(rng, cls):
@@ -355,6 +419,8 @@ def gen_group(rng, gid, cls=None, persample=None):
                 "override_keys": keys, "override_extra": extra}
         g = geometry(case)
         case["steps"] = gen_steps(rng, case, g, T, persample)
+        if rng.random() < 0.25:
+            add_reassign(rng, case, g)
         if cells and cls in THREE:          # the reward signal is an argument of the one trainer call
             for st, st0 in zip(case["steps"], cells[0]["steps"]):
                 st["signal"], st["scale"] = copy.deepcopy(st0["signal"]), st0["scale"]
@@ -445,6 +511,29 @@ def q_signal(st, cls):
     return f"(SigScalar FN {F.coq_float(st['signal'])} {sc})"
 
 
+def live_trainers(case):
+    """the hyperparameters in force at every step: the registered (effective) ones, updated by the re-assignments of the
+    per-cell state made before that step; a half kernel swapped for the zero kernel acts like a zero learning rate"""
+    cur = {k: v for k, v in case["trainer"].items() if k != "types"}
+    out = []
+    for st in case["steps"]:
+        for k, v in (st.get("reassign") or {}).items():
+            if k in ("kernel_post", "kernel_pre"):
+                cur["zero_" + k[7:]] = v == "zero"
+            elif k not in ("tolerance", "inplace"):
+                cur[k] = v
+        t = dict(cur)
+        for side in ("post", "pre"):
+            if t.pop("zero_" + side, False):
+                t["lr_" + side] = [0.0] * len(t["lr_" + side]) if isinstance(t["lr_" + side], list) else 0.0
+        out.append(t)
+    return out
+
+
+def has_reassign(case):
+    return any(st.get("reassign") for st in case["steps"])
+
+
 def q_case(case, g, obs):
     if case["kind"] == "kernel":
         return f"run_kernels {F.coq_float(case['diff'])} {F.coq_float(case['lr'])} {F.coq_float(case['tc'])}"
@@ -453,6 +542,16 @@ def q_case(case, g, obs):
     for st, o in zip(case["steps"], obs):
         dl = st["delay_seen"] if st["delay_seen"] is not None else [0.0] * g["nparam"]
         steps.append(f"step {q_zlist(o)} {q_zlist(st['post'])} {F.coq_list([F.coq_float(d) for d in dl])} {q_signal(st, cls)}")
+    if has_reassign(case):
+        tvs = []
+        for t, stp in zip(live_trainers(case), steps):
+            if has_lists(t):
+                trs = F.coq_list([q_trainer(element_trainer(t, e)) for e in range(g["nparam"])])
+            else:
+                trs = f"(repeat {q_trainer(t)} {g['nparam']}%nat)"
+            tvs.append(f"tv {REDK[t['red']]}%Z {trs} ({stp})")
+        return (f"run_case_tv {case['B']} {g['npre']} {g['npost']} {q_nat_pairs(g['syn'])} {F.coq_float(case['conn']['dt'])} "
+                f"{F.coq_list(tvs)}")
     if has_lists(case["trainer"]):
         trs = F.coq_list([q_trainer(element_trainer(case["trainer"], e)) for e in range(g["nparam"])])
         return (f"run_case_ps {case['B']} {g['npre']} {g['npost']} {q_nat_pairs(g['syn'])} {F.coq_float(case['conn']['dt'])} "
@@ -514,10 +613,10 @@ def red_apply(red, xs):
     return max(xs)
 
 
-def expected_parts(case, g, k, last_pre, last_post, delays, st):
+def expected_parts(case, g, k, last_pre, last_post, delays, st, t=None):
     """the documented rule evaluated from the true last spike indices; -> (pos[], neg[]) per parameter element, or None
     when the statement does not determine the parts (per-sample signal with a non-additive reduction)"""
-    t = case["trainer"]
+    t = t or case["trainer"]
     cls = t["cls"]
     dt = case["conn"]["dt"]
     B = case["B"]
@@ -602,6 +701,7 @@ def oracle_cell(case, g, obs, impl):
     B = case["B"]
     last_pre = [None] * (B * g["npre"])
     last_post = [None] * (B * g["npost"])
+    live = live_trainers(case)          # each step is judged with the hyperparameters in force at that step
     for k, (st, o, ri) in enumerate(zip(case["steps"], obs, impl)):
         if "error" in ri:
             return ({"step": k, "what": "implementation raised", "msg": ri.get("msg")},
@@ -624,7 +724,7 @@ def oracle_cell(case, g, obs, impl):
                     return ({"step": k, "what": f"{nm} monitor: time since last spike", "unit": j, "got": v, "want": want},
                             {"trainer": cls, "what": "monitor"})
         # 2. the parts are the documented rule of t_delta = t_post_last - t_pre_last - d
-        exp = expected_parts(case, g, k, last_pre, last_post, st["delay_seen"], st)
+        exp = expected_parts(case, g, k, last_pre, last_post, st["delay_seen"], st, live[k])
         if exp is not None:
             for nm, want in (("pos", exp[0]), ("neg", exp[1])):
                 got = dec_opt_list(ri[nm])
@@ -852,7 +952,8 @@ def run(ctx):
     quick = ctx["tier"] == "quick"
     STATS.clear()
     PARTIAL.clear()
-    n_single, n_conv, n_group, n_pair, n_ker = (28, 28, 49, 36, 30) if quick else (700, 350, 800, 600, 300)
+    n_single, n_conv, n_reassign, n_group, n_pair, n_ker = ((21, 21, 28, 42, 32, 30) if quick
+                                                            else (700, 350, 350, 800, 600, 300))
     cases = []
     pairs = []
     gid = 0
@@ -871,6 +972,8 @@ def run(ctx):
         cases.append(gen_case(rng))
     for k in range(n_conv):
         cases.append(gen_conv_case(rng, (TWO + KER + THREE)[k % 7]))      # every trainer class, several each
+    for k in range(n_reassign):
+        cases.append(gen_reassign_case(rng, (TWO + KER + THREE)[k % 7]))  # state re-assigned mid-run, every trainer class
     for k in range(n_group):
         # every trainer class in turn, so that each of the seven is exercised with overrides in every run
         cases += gen_group(rng, gid, (TWO + KER + THREE)[k % 7], persample=bool((k // 7) % 2))   # both signal forms in turn
@@ -920,7 +1023,10 @@ def run(ctx):
                  "constructor defaults; every hyperparameter (trainer-level, override, kernel kwarg) is supplied in a randomly chosen "
                  "accepted type (python float/int, numpy float64/float32/int64, 0-d float/int tensors, 1-element tensors and "
                  "per-parameter-element tensors for kernel kwargs, pre and post values differing); relative to the trainer's "
-                 "constructor defaults, the oracle using each cell's effective hyperparameters; pairs of cells for the two agreement statements; the two half kernels on "
+                 "constructor defaults, the oracle using each cell's effective hyperparameters; a stream of cells (and a quarter of the grouped ones) "
+                 "whose per-cell state attributes (learning rates incl. sign changes, time constants, kernel kwargs as dictionary "
+                 "entries or buffers, the half kernels, batch reduction, tolerance, inplace) are RE-ASSIGNED between steps, model and "
+                 "oracle following the values in force at each step; pairs of cells for the two agreement statements; the two half kernels on "
                  "boundary arguments; non-trivial = >=2 steps and >=2 non-zero parts"
                  + ("" if quick else "; plus every pre/post history of length <= 4 on a 1x1 cell for 4 trainers")),
         "trainer_distribution": dict(Counter(c["trainer"]["cls"] for c in cells)),
@@ -936,6 +1042,9 @@ def run(ctx):
                 any((x >= 0) != (c["defaults"][k] >= 0) for x in (c["trainer"][k] if isinstance(c["trainer"][k], list)
                                                                     else [c["trainer"][k]]))
                 for k in c["trainer"] if k.startswith("lr_"))),
+        "cells_with_state_reassigned_mid_run_by_trainer": dict(Counter(c["trainer"]["cls"] for c in cells if has_reassign(c))),
+        "reassigned_attribute_distribution": dict(Counter(k for c in cells for st in c["steps"]
+                                                          for k in (st.get("reassign") or {}))),
         "partially_seen_receptive_fields_by_trainer": dict(PARTIAL),
         "conv2d_cells_by_trainer": dict(Counter(c["trainer"]["cls"] for c in cells if c["conn"]["cls"] == "Conv2D")),
         "reward_signal_type_distribution": dict(Counter(st["signal_type"] for c in cells for st in c["steps"]
